@@ -35,6 +35,7 @@ def build():
     C.ext("ModeDevice.enable", model=common.noop, trusted_reason="mpf/core/mode_device.py ModeDevice.enable is empty")
     C.cls("LogicBlock", file=LB, bases=["ModeDevice"], check_bases=True)
     C.fn("LogicBlock.device_removed_from_mode", inline=True, no_inv=True)
+    C.finite_checks.append(common.native_demo_check("c18_sequence_shared_first_last_event.py", "a sequence whose first and last step share an event advances ONE step per event, also on the completing event"))
     C.finite_checks.append(common.native_demo_check(
         "c18_timeout_fires_after_mode_stop.py",
         "a mode block with logic_block_timeout: nothing fires (and nothing crashes) after its mode has stopped"))
